@@ -81,6 +81,9 @@ func checkSource(in input) string {
 	if serr == nil && c24lib.UsesTypeParams(sf) {
 		return "excluded:type-parameters"
 	}
+	if serr == nil && c24lib.MethodWithoutReceiver(sf) {
+		return "excluded:not-valid-go(method receiver list without exactly one parameter)"
+	}
 	nodes, _, ferr, pan := c24lib.ForkParse(src, 0)
 	if pan != nil {
 		fail(in, k, "panic escaped Parser.Parse", fmt.Sprint(pan), fmt.Sprintf("std error: %v", serr))
@@ -279,6 +282,16 @@ func genSeq(r *vh.Rng, maxOperands int) []mtok {
 	return out
 }
 
+// callShape: an operand or ')' directly followed by '(' (a call or conversion, not an operand/operator sequence)
+func callShape(seq []mtok) bool {
+	for i := 0; i+1 < len(seq); i++ {
+		if (strings.HasPrefix(seq[i].coq, "TAtom") || seq[i].coq == "TRparen") && seq[i+1].coq == "TLparen" {
+			return true
+		}
+	}
+	return false
+}
+
 func render(seq []mtok) string {
 	var sb strings.Builder
 	for i, t := range seq {
@@ -424,6 +437,9 @@ func main() {
 	sr := rng.Fork()
 	for i := 0; i < nSeq; i++ {
 		seq := genSeq(sr, 9)
+		for callShape(seq) {
+			seq = genSeq(sr, 9) // `a (b)` is a call: primary-expression suffixes are outside the model's alphabet
+		}
 		txt := render(seq)
 		src := []byte("package p\nvar _ = " + txt + "\n")
 		wd.Beat(string(src))
